@@ -27,6 +27,17 @@ ASSUMPTIONS = ["README 'What does HashStore look like?' is the layout specificat
 EXHAUSTIVE = {"quick": True, "thorough": True}
 
 GRID = [(d, w, a) for d in range(1, 7) for w in range(1, 5) if d * w <= 24 for a in STORE_ALGOS]
+# shard shapes that use up the digest exactly, all but one character of it, or more than it has (no remainder token,
+# a one-character file name, trailing empty tokens): depth * width around the hex length of each algorithm
+_HEXLEN = {"MD5": 32, "SHA-1": 40, "SHA-256": 64, "SHA-384": 96, "SHA-512": 128}
+BOUNDARY_GRID = []
+for _a in STORE_ALGOS:
+    _n = _HEXLEN[_a]
+    for _w in (1, 2, 4, 5, 8, 16):
+        for _d in {_n // _w, (_n - 1) // _w, _n // _w + 1}:
+            if _d >= 1 and (_d, _w, _a) not in BOUNDARY_GRID:
+                BOUNDARY_GRID.append((_d, _w, _a))
+GRID = GRID + [c for c in BOUNDARY_GRID if c not in GRID]
 
 
 def shards(tier, seed):
